@@ -1,4 +1,6 @@
 import BlobfinderModel.Proofs.Masks
+import BlobfinderModel.Model.Fastmatch
+import Mathlib.Data.Rat.Floor
 /-!
 # C18 — antialiased radial masks form a partition of unity
 
@@ -185,5 +187,57 @@ theorem patch_prefix_counterexample :
 
 /-- non-vacuity: 8 bins of width 1 on radius 8 -/
 example : (1 : ℚ) ≤ Gen.bin_width 8 0 8 := by unfold Gen.bin_width; norm_num
+
+/-! ### the default bin layout (`n_bins=None`) -/
+
+/-- **which calls with the default bin count are inputs of this property**: the default is
+`int(np.round(radius - radius_inner))` (`Gen.bin_default_n_expr`, half-to-even).  For a span `s = R - ri ≥ 1` the default
+layout has bin width ≥ 1 px — the hypothesis of every clause above — exactly when the fractional part of `s` is below 1/2,
+or equal to 1/2 with an even integer part.  For the other spans (3.5, 7.5, 2.7, …) the default bins are narrower than a
+pixel and the partition clauses do not apply (the bin sum exceeds 1 there: checked on the implementation). -/
+theorem default_layout_domain (R ri : ℚ) (hs : 1 ≤ R - ri) :
+    1 ≤ Gen.bin_width R ri (roundHalfEven (R - ri)) ↔
+      ((R - ri) - ((R - ri).floor : ℚ) < 1 / 2 ∨
+        ((R - ri) - ((R - ri).floor : ℚ) = 1 / 2 ∧ (R - ri).floor % 2 = 0)) := by
+  set s := R - ri with hsdef
+  have h1 : ((s.floor : ℤ) : ℚ) ≤ s := Int.floor_le s
+  have h2 : s < ((s.floor : ℤ) : ℚ) + 1 := Int.lt_floor_add_one s
+  have hf1 : (1 : ℤ) ≤ s.floor := Int.le_floor.mpr (by exact_mod_cast hs)
+  have hf1q : (1 : ℚ) ≤ ((s.floor : ℤ) : ℚ) := by exact_mod_cast hf1
+  -- width ≥ 1 ⇔ n ≤ s for a positive bin count
+  have key : ∀ n : ℤ, 0 < n → (1 ≤ Gen.bin_width R ri n ↔ (n : ℚ) ≤ s) := by
+    intro n hn
+    unfold Gen.bin_width
+    have hnq : (0 : ℚ) < (n : ℚ) := by exact_mod_cast hn
+    rw [le_div_iff₀ hnq, one_mul]
+  unfold roundHalfEven
+  simp only []
+  split_ifs with c1 c2 c3
+  · rw [key _ (by omega)]
+    constructor
+    · intro _; left; exact c1
+    · intro _; exact h1
+  · rw [key _ (by omega)]
+    push_cast
+    constructor
+    · intro h; linarith
+    · rintro (h | ⟨h, _⟩) <;> linarith
+  · rw [key _ (by omega)]
+    have hd : s - ((s.floor : ℤ) : ℚ) = 1 / 2 := le_antisymm (not_lt.mp c2) (not_lt.mp c1)
+    constructor
+    · intro _; right; exact ⟨hd, c3⟩
+    · intro _; exact h1
+  · rw [key _ (by omega)]
+    push_cast
+    have hd : s - ((s.floor : ℤ) : ℚ) = 1 / 2 := le_antisymm (not_lt.mp c2) (not_lt.mp c1)
+    constructor
+    · intro h; linarith
+    · rintro (h | ⟨_, h⟩)
+      · linarith
+      · exact absurd h c3
+
+/-- non-vacuity: span 4.5 is inside the domain (4 bins of 1.125 px), span 3.5 is not (4 bins of 0.875 px) -/
+example : roundHalfEven (9 / 2) = 4 ∧ 1 ≤ Gen.bin_width (9 / 2) 0 4 ∧ roundHalfEven (7 / 2) = 4
+    ∧ ¬ 1 ≤ Gen.bin_width (7 / 2) 0 4 := by decide +kernel
 
 end C18
